@@ -283,7 +283,7 @@ def validate():
 def obligations(tier, seed):
     obs = []
     combos = [("zlib", "lines9", 4), ("zlib", "lines9", 3), ("gzip", "rand13", 4), ("zlib", "empty", 4),
-              ("gzip", "one", 1), ("zlib", "nl5", 1), ("gzip", "lines9", 7), ("zlib", "rand13", 1)]
+              ("gzip", "one", 1), ("zlib", "nl5", 1), ("gzip", "lines9", 7), ("gzip", "nl5", 3)]
     if tier == "thorough":
         combos += [(c, pl, bs) for c in ("zlib", "gzip") for pl in PAYLOADS for bs in (1, 3, 4, 7)
                    if (c, pl, bs) not in combos and pl != "aaaa40"] + [("zlib", "aaaa40", 3)]
